@@ -36,6 +36,8 @@ def parseStmt : List String → Option Stmt
   | ["read"] => some .read
   | ["dcommit"] => some .dcommit
   | ["reado"] => some .readO
+  | ["readh"] => some .readHead
+  | ["readb"] => some .readHead
   | "inso" :: k :: cells => do pure (.writeO (.ins (← k.toInt?) (← cells.mapM parseCell)))
   | ["updo", k, c, v] => do pure (.writeO (.upd (← k.toInt?) (← c.toNat?) (← parseCell v)))
   | ["delo", k] => do pure (.writeO (.del (← k.toInt?)))
